@@ -1,6 +1,6 @@
 """Contracts of the TestNode getters shared by several properties (C03, C04, C05, C08, C10)."""
 import z3
-from pyvc.kinds import V, STR, INT, BOOL, Ref, Seq, SetK, Map, NULL, RefSort
+from pyvc.kinds import V, STR, INT, BOOL, Ref, Seq, SetK, Map, NULL, RefSort, const
 from pyvc.contract import Contract, contract_handler
 
 NODE = "avocado_i2n/cartgraph/node.py"
@@ -192,4 +192,102 @@ SHARED_RESULTS = Contract(
     result_kind=Seq(Ref("Result")),
     frame=[],
     props=["C03", "C10"],
+)
+
+
+# ---------------------------------------------------------------- shared_filtered_results
+_NAME_ARR = z3.ArraySort(RefSort, z3.StringSort())
+prefix_filtlen = z3.Function("prefix_filtlen", _NAME_ARR, Seq(Ref("Result")).sort(), z3.StringSort(), z3.IntSort(), z3.IntSort())
+
+
+def _prefix_filtlen_axioms():
+    N = z3.Const("ax_N", _NAME_ARR)
+    L = z3.Const("ax_L", Seq(Ref("Result")).sort())
+    f = z3.Const("ax_f", z3.StringSort())
+    i = z3.Const("ax_i", z3.IntSort())
+    LR = Seq(Ref("Result"))
+    return [
+        z3.ForAll([N, L, f], prefix_filtlen(N, L, f, 0) == 0, patterns=[prefix_filtlen(N, L, f, 0)]),
+        z3.ForAll([N, L, f, i], z3.Implies(i >= 0, prefix_filtlen(N, L, f, i + 1) == prefix_filtlen(N, L, f, i) +
+                                           z3.If(z3.Contains(z3.Select(N, LR.at(L, i)), f), 1, 0)),
+                  patterns=[prefix_filtlen(N, L, f, i + 1)]),
+        z3.ForAll([N, L, f, i], z3.Implies(i >= 0, z3.And(prefix_filtlen(N, L, f, i) >= 0, prefix_filtlen(N, L, f, i) <= i)),
+                  patterns=[prefix_filtlen(N, L, f, i)]),
+    ]
+
+
+def filtered_len(eng, st, args, kw, node):
+    """Spec function: number of results among the first i of a list whose name contains the filter."""
+    lst, flt, i = args
+    N = eng.heap_array(st, "Result", "r_name", STR)
+    for ax in _prefix_filtlen_axioms():
+        if ax.get_id() not in st.facts:
+            st.assume(ax)
+    yield st, V(INT, prefix_filtlen(N, lst.term, flt.term, i.term))
+
+
+FLEN = VFunc("handler", fn=filtered_len, name="filtered_len")
+
+LXC_OWN = "(self.started_worker is not None and 'swarm' not in self.params['pool_scope'] and self.params.get('nets_spawner') == 'lxc')"
+REMOTE_OWN = "(self.started_worker is not None and 'cluster' not in self.params['pool_scope'] and self.params.get('nets_spawner') == 'remote')"
+SCOPE_FILTER = (f"((self.started_worker.swarm_id + '.' + self.started_worker.id) if {LXC_OWN} else "
+                f"(self.started_worker.swarm_id if {REMOTE_OWN} else ''))")
+
+WF_RESULTS = "forall(self.shared_results, lambda r: r is not None)"
+
+SHARED_FILTERED = Contract(
+    target=f"{NODE}::TestNode.shared_filtered_results",
+    params={"self": Ref("TestNode")},
+    requires=[WF_BRIDGED, WF_RESULTS],
+    overrides={"TestNode.shared_results": by_contract(SHARED_RESULTS)},
+    extra_names={"filtered_len": FLEN, "bridged_results_len": BRL},
+    raises={"ParamNotFound": "self.started_worker is not None and 'pool_scope' not in self.params"},
+    loops={0: {
+        "invariants": [
+            "len(results) == filtered_len(all_results, scope_filter, _i)",
+            f"forall({RES}, lambda r: implies(r in results, r in all_results and scope_filter in r['name']))",
+            "forall(range(0, _i), lambda j: implies(scope_filter in all_results[j]['name'], all_results[j] in results))",
+        ],
+        "kinds": {"results": Seq(Ref("Result"))},
+    }},
+    ensures=[
+        ("length", f"len(result) == filtered_len(self.shared_results, {SCOPE_FILTER}, len(self.shared_results))"),
+        ("members_only", f"forall({RES}, lambda r: implies(r in result, r in self.shared_results and {SCOPE_FILTER} in r['name']))"),
+        ("members_all", f"forall(self.shared_results, lambda r: implies({SCOPE_FILTER} in r['name'], r in result))"),
+    ],
+    result_kind=Seq(Ref("Result")),
+    frame=[],
+    props=["C03", "C10"],
+)
+
+
+# ---------------------------------------------------------------- get_stateful_objects
+OBJ = 'Ref("TestObject")'
+WF_OBJECTS = "forall(self.objects, lambda o: o is not None)"
+
+
+def stateful(o, do="do"):
+    return f"bool({o}.object_typed_params(self.params).get({do} + '_state'))"
+
+
+STATEFUL_OBJECTS = Contract(
+    target=f"{NODE}::TestNode.get_stateful_objects",
+    params={"self": Ref("TestNode"), "do": const("set")},    # every call site uses the default do="set"
+    requires=[WF_OBJECTS],
+    loops={0: {
+        "invariants": [
+            f"forall({OBJ}, lambda o: implies(o in setup_objects, o in self.objects and {stateful('o')}))",
+            f"forall(range(0, _i), lambda j: implies({stateful('self.objects[j]')}, self.objects[j] in setup_objects))",
+            "len(setup_objects) <= _i",
+        ],
+        "kinds": {"setup_objects": Seq(Ref("TestObject"))},
+    }},
+    ensures=[
+        ("members_only", f"forall({OBJ}, lambda o: implies(o in result, o in self.objects and {stateful('o')}))"),
+        ("members_all", f"forall(self.objects, lambda o: implies({stateful('o')}, o in result))"),
+        ("empty_iff", f"(len(result) == 0) == forall(self.objects, lambda o: not {stateful('o')})"),
+    ],
+    result_kind=Seq(Ref("TestObject")),
+    frame=[],
+    props=["C03", "C10", "C05"],
 )
